@@ -79,6 +79,16 @@ LONG_TOKENS = {
 LONG_SIZES = [255, 256, 257, 32767, 32768, 65535, 65536, 65537, 70000, 131072, 200000]
 
 
+def _article_like(n):
+    return ("== Heading %d ==\nSome ''text'' with [[links|and captions]], {{templates|x=1}} and <b>tags</b> &amp; entities.\n* item\n" * n)[:n * 100]
+
+
+# pairs of different texts for the free-running two-thread pass (different lengths: a scan that reads the other thread's text ends early or late)
+THREAD_TEXTS = {"article-58k/table-27k": (_article_like(580), ("{|\n|-\n| cell [[a]] || other ''cell''\n|}\n" * 700)[:27280]),
+                "short/short": ("a [[b]] ''c''\n" * 20, "{|\n| x\n|}\n" * 9),
+                "article-58k/article-30k": (_article_like(580), _article_like(300))}
+
+
 class C10(InputProp):
     id = "C10"
     rule = ("every lexeme sequence over the scanner alphabet up to the stated length is scanned by the real "
@@ -93,21 +103,60 @@ class C10(InputProp):
         self.tokenize = utoken.tokenize
         # single tokens of every class around the sizes at which a narrower length field would wrap (2^8, 2^15, 2^16, 2^17)
         long_ = Product(sorted(LONG_TOKENS), LONG_SIZES if tier != "quick" else [s for s in LONG_SIZES if s <= 70000], ["alone", "between"], name="long")
+        # the scanner releases the interpreter lock: a free-running pass with two OS threads inside it at once (rounds per pair)
+        threads = Product(sorted(THREAD_TEXTS), [300 if tier == "quick" else 3000], name="threads")
         if tier == "quick":
-            self.space = Concat(Seqs(SIGMA_S, 3, name="sigma"), Seqs(SIGMA_REWIND, 5, minlen=4, name="rewind"), long_)
+            self.space = Concat(Seqs(SIGMA_S, 3, name="sigma"), Seqs(SIGMA_REWIND, 5, minlen=4, name="rewind"), long_, threads)
         else:
-            self.space = Concat(Seqs(SIGMA_S, 4, name="sigma"), Seqs(SIGMA_REWIND, 7, minlen=5, name="rewind"), long_)
+            self.space = Concat(Seqs(SIGMA_S, 4, name="sigma"), Seqs(SIGMA_REWIND, 7, minlen=5, name="rewind"), long_, threads)
 
     def text_of(self, case):
         fam, lex = case
+        if fam == "threads":
+            return ""
         if fam == "long":
             kind, n, where = lex
             t = LONG_TOKENS[kind](n)
             return t if where == "alone" else "a [[b]]\n" + t + "\n== h ==\n''c''"
         return "".join(lex)
 
+    def run_threads(self, c):
+        """Free-running pass (not an enumeration): the scanner releases the interpreter lock while it scans, so two OS threads can be
+        inside it at once.  Each thread's tokens must be what a single-threaded scan of its text gives."""
+        import threading
+        pair, rounds = c
+        texts = THREAD_TEXTS[pair]
+        want = [self.scan(t) for t in texts]
+        for t, w in zip(texts, want):
+            bad = check_tiling(t, w)
+            if bad:
+                return {"key": ("threads", pair, "seq-bad"), "steps": 1, "viol": [{"sig": bad[0], "msg": bad[1][:300]}]}
+        problems = []
+        start = threading.Barrier(len(texts))
+
+        def work(i):
+            start.wait()
+            for r in range(rounds):
+                got = self.scan(texts[i])
+                if got != want[i]:
+                    problems.append((i, r, len(got), len(want[i])))
+                    return
+        ths = [threading.Thread(target=work, args=(i,)) for i in range(len(texts))]
+        for th in ths:
+            th.start()
+        for th in ths:
+            th.join()
+        viol = []
+        if problems:
+            i, r, ng, nw = sorted(problems)[0]
+            viol.append({"sig": "concurrent-scan-differs", "msg": "thread %d, round %d: scanning a %d-character text while another thread scans a different one gave %d tokens, "
+                         "single-threaded it gives %d (texts %s)" % (i, r, len(texts[i]), ng, nw, pair)})
+        return {"key": ("threads", pair, bool(viol)), "steps": rounds * len(texts), "viol": viol, "counters": {"free_running_thread_rounds": rounds * len(texts)}}
+
     def run_case(self, case):
         fam, lex = case
+        if fam == "threads":
+            return self.run_threads(lex)
         text = self.text_of(case)
         toks = self.scan(text)
         bad = check_tiling(text, toks)
@@ -123,6 +172,8 @@ class C10(InputProp):
         return {"key": key, "steps": len(toks)}
 
     def describe(self, case):
+        if case[0] == "threads":
+            return {"family": "threads", "texts": case[1][0], "rounds": case[1][1]}
         return {"family": case[0], "text": self.text_of(case)[:200], "case": case[1] if case[0] == "long" else None}
 
     def finish(self, agg):
